@@ -580,8 +580,7 @@ parser! {
             InitialValueAssignmentKind::EnumeratedValues(
               EnumeratedValuesInitializer {
                 values: values.values,
-                // TODO initial value
-                initial_value: None,
+                initial_value: Some(spec_init.1),
             })
           },
         }
